@@ -13,6 +13,7 @@ import (
 	"verifharness/drv/frl"
 	"verifharness/drv/fwd"
 	"verifharness/drv/hb"
+	"verifharness/drv/idg"
 	"verifharness/drv/pk"
 	"verifharness/drv/rb"
 	"verifharness/drv/rbs"
@@ -77,6 +78,8 @@ func main() {
 		os.Exit(rbs.Main(os.Args[2:]))
 	case "rbs-agent":
 		os.Exit(rbs.AgentMain(os.Args[2:]))
+	case "idg":
+		os.Exit(idg.Main(os.Args[2:]))
 	case "hb":
 		os.Exit(hb.Main(os.Args[2:]))
 	default:
